@@ -61,6 +61,10 @@ EXPLANATION += (
     ' Round 5: settings are forwarded at every call (R-FWD/parameter-forwarded).'
 )
 
+EXPLANATION += (
+    " Round 7: the vote counter's capacity derives from the iteration count (R-CAP/vote-counter, rule of C02)."
+)
+
 RULE_TEXT = (
     "one obligation per arithmetic relation (quotient, divisor, slice "
     "bound, constant, loop shape); non-trivial when the construct exists")
@@ -92,6 +96,10 @@ def check(ctx):
     check_backfill(ctx)
     # settings this property depends on are handed down every call
     # chain, never left to a callee's default (sa/rules/forwarding.py)
+    # the vote counter holds as many votes as there are iterations (rule
+    # of C02): a wrapped count gives shares that no longer add up
+    from .C02 import check_counter_capacity
+    check_counter_capacity(ctx)
     from ..rules.forwarding import check_forwarding
     check_forwarding(ctx, {'bootstrap_iteration', 'n_assignments'})
 
